@@ -30,6 +30,14 @@
                  (parameters actually stored), `memo` (which used-counts have had their sub-carrier numbers
                  computed, and in which branch), `prev` (layout and content of the IFFT input of the last
                  modulate call).
+     CALL FORMS.  A parameter set <<N, cp, -1>> stands for the TWO-argument call OFDM(N, cp) / set_parameters(N, cp):
+                 the used count defaults to N (`EffU`), so the call is valid for even N (all carriers, DC used) and
+                 must be rejected for odd N.  It occurs in ParamCase stars and in histories.
+     CHANNEL ROUTES.  `chan.raw` / `chan.route`: how the channel object is built.  "int": integer delays, Ts = 1 (arrays).
+                 Otherwise the profile is given RAW, in quarter samples (`raw`, delays q Ts / 4, never an exact half), as
+                 arrays, as a `channel_profile=` object or as an already discretised profile, with Ts # 1; rounding
+                 and MERGING of raw taps decide the discretised delays and hence the memory the hypothesis
+                 "memory <= cp" speaks about (`DiscLaw`: the discretised delays are exactly the layout's delays).
      PARAMETER REGIMES.  (a) `cfg.pt`: the integer scalar type the parameters are passed as ("int" = Python int,
                  "int8" ... "uint64" = NumPy scalars).  The behaviour must not depend on it (ScaleLaw and every other
                  law are stated on the VALUES); admitted whenever every size the API exposes - N, cp, u, N + cp, the
@@ -89,6 +97,8 @@ EXTENDS Integers, Sequences, FiniteSets, TLC, Emit, Cyc2
 CONSTANTS Configs,   \* set of <<N, cp, u>> for which pipeline cases are generated
           MapFfts,   \* set of fft sizes whose index map is checked alone (for every even u <= N)
           ParamFfts, \* set of fft sizes for which parameter validation is checked (cp -1..N+1, u 0..N+2)
+                     \* "long" : {4u+1, 5u} (five symbols);  "all" also contains the EMPTY input (0 symbols; no channel)
+          Routes,    \* set of channel construction routes: "int" | "arrays" | "profile" | "discrete"
           LenMode,   \* "isi" | "two" | "three" | "all" : data lengths {u+1} | {u-1, 2u+1} | + 2u | 1..2u+1
                      \* "pair" | "uses" : {2u, u+1} | {u-1, u+1, 2u}  (same symbol count, full and partial)
           PatMode,   \* "dense" | "basis"       : + all unit patterns at the longest length
@@ -120,7 +130,7 @@ vars == <<pc, cfg, ns, data, chan, sc, padded, grid, gridi, body, tx, txi, rxful
 
 GZ == <<0, 0>>
 Exact(N) == N \in {2, 4, 8, 16}
-NoChan == [taps |-> <<>>, block |-> FALSE, g |-> 0]
+NoChan == [taps |-> <<>>, block |-> FALSE, g |-> 0, route |-> "int", raw |-> <<>>]
 NoObj  == [N |-> 0, cp |-> 0, u |-> 0]
 NoPrev == [ns |-> 0, N |-> 0, u |-> 0, pad |-> <<>>]
 NoCfg  == [N |-> 0, cp |-> 0, u |-> 0, L |-> 0, pat |-> <<"none", 0, 0>>, pt |-> "int"]
@@ -134,6 +144,9 @@ Min(a, b) == IF a < b THEN a ELSE b
 (* ===================================== the intended design ===================================== *)
 \* the configurations the property quantifies over (everything else must be rejected)
 Valid(N, cp, u) == cp \in 0..N /\ u \in 2..N /\ u % 2 = 0
+\* the used count of a call: -1 = argument omitted = all carriers
+EffU(N, u) == IF u = -1 THEN N ELSE u
+ValidCall(N, cp, u) == u # 0 /\ Valid(N, cp, EffU(N, u))
 \* number of OFDM symbols needed for L data elements
 NSym(L, u) == (L + u - 1) \div u
 \* the power scale applied by the modulator and removed by the demodulator (as a rational <<n, d>>):
@@ -159,7 +172,8 @@ SquareAsIs(N, pt) == IF Dev.ScaleWrapsNarrowInt THEN WrapInto(N * N, pt) ELSE N 
 RECURSIVE FitTypes(_, _)
 FitTypes(c, i) == IF i > Len(CallTypes) THEN <<>>
                   ELSE (IF Fits(CallTypes[i], c, 1) THEN <<CallTypes[i]>> ELSE <<>>) \o FitTypes(c, i + 1)
-CallPType(pos, c) == IF c[1] < 1 \/ c[2] < 0 \/ c[3] < 1 THEN "int"
+CallPType(pos, c0) == LET c == <<c0[1], c0[2], EffU(c0[1], c0[3])>> IN
+                     IF c[1] < 1 \/ c[2] < 0 \/ c[3] < 1 THEN "int"
                      ELSE LET ts == FitTypes(c, 1) IN IF ts = <<>> THEN "int" ELSE ts[((pos + c[1] + c[2] + c[3]) % Len(ts)) + 1]
 
 \* Sub-carrier NUMBER (signed frequency) that carries data position j in 1..u: ascending frequency,
@@ -201,7 +215,8 @@ TapVals == << <<1, 0>>, <<0, 1>>, <<-1, 0>>, <<1, 1>>, <<2, -1>>, <<1, -2>>, <<0
 KeyOf(c, L) == ((((c[1] * 17 + c[2]) * 17 + c[3]) * 40) + L) % 9973
 Rnd(k, i)   == LcgIter(LcgStart(Seed, k), i)
 
-Lengths(u) == IF LenMode = "all" THEN 1..(2 * u + 1)
+Lengths(u) == IF LenMode = "all" THEN 0..(2 * u + 1)
+              ELSE IF LenMode = "long" THEN {4 * u + 1, 5 * u}
               ELSE IF LenMode = "three" THEN {u - 1, 2 * u, 2 * u + 1}
               ELSE IF LenMode = "isi" THEN {u + 1}
               ELSE IF LenMode = "pair" THEN {2 * u, u + 1}
@@ -251,10 +266,26 @@ Equalizable(taps, N, u) == LET H == FreqResp(taps, N)  idx == UsedIdx(N, u)
                            IN  \A j \in 1..u : H[idx[j] + 1] # CyZero(CyRing(N))
 Dominant(taps) == [taps EXCEPT ![1] = <<taps[1][1], <<5, 0>>>>]
 FixLayout(taps, N, u) == IF Exact(N) /\ Equalizable(taps, N, u) THEN taps ELSE Dominant(taps)
+\* A RAW profile for a layout, in quarter samples: tap i sits at 4 d_i + o_i with o_i in {-1, 0, 1} (never an exact half,
+\* where rounding would be a tie), and the last tap is given TWICE (4 d + 1 and 4 d - 1, or 4 d and 4 d + 1 at delay 0):
+\* two raw taps that merge into one.  Nearest sample of a quarter delay q that is not an exact half:
+Near(q) == (q + 2) \div 4
+RawOf(taps, k) ==
+    LET n == Len(taps)
+        off(i) == IF taps[i][1] = 0 THEN Rnd((k + 3 * i) % 9973, 2) % 2 ELSE (Rnd((k + 3 * i) % 9973, 2) % 3) - 1
+        last == taps[n][1]
+    IN  [i \in 1..(n + 1) |-> IF i < n THEN 4 * taps[i][1] + off(i)
+                               ELSE IF last = 0 THEN i - n ELSE 4 * last + (IF i = n THEN -1 ELSE 1)]
+\* discretisation: nearest sample of every raw tap, merged and sorted = the delays of the layout
+DiscOk(ch) == ch.route = "int" \/
+              ( /\ \A i \in 1..Len(ch.raw) : ch.raw[i] % 4 # 2 /\ ch.raw[i] >= 0
+                /\ {Near(ch.raw[i]) : i \in 1..Len(ch.raw)} = {ch.taps[q][1] : q \in 1..Len(ch.taps)}
+                /\ Len(ch.raw) > Len(ch.taps) )
 Channels(c, k) ==
     LET lays == {FixLayout(t, c[1], c[3]) : t \in RawLayouts(c, k)}
         ext  == IF Dev.MemoryExceedsCp THEN {<< <<0, <<1, 0>>>>, <<c[2] + 1, <<0, 1>>>> >>} ELSE {}
-    IN  {[taps |-> t, block |-> b, g |-> g] : t \in lays \cup ext, b \in (IF Block THEN BOOLEAN ELSE {FALSE}), g \in Gains}
+    IN  {[taps |-> t, block |-> b, g |-> g, route |-> r, raw |-> IF r = "int" THEN <<>> ELSE RawOf(t, k)] :
+            t \in lays \cup ext, b \in (IF Block THEN BOOLEAN ELSE {FALSE}), g \in Gains, r \in Routes}
 
 (* ============================================ the machine ======================================= *)
 Init == /\ pc = "idle" /\ cfg = NoCfg /\ ns = 0 /\ data = <<>> /\ chan = NoChan
@@ -393,6 +424,7 @@ Equalize ==
 
 \* ---- history of one live object (pc stays "idle"; the chains branch off every such state) ----
 AsRec(c) == [N |-> c[1], cp |-> c[2], u |-> c[3]]
+Eff(c) == <<c[1], c[2], EffU(c[1], c[3])>>
 Pipeline == <<cfg, ns, data, chan, sc, padded, grid, gridi, body, tx, txi, rxfull, rx, win, wini, freq, dem, demi, eq, psq>>
 \* the object has been used in its current configuration (a chain ran): its numbers are cached
 Used(o, m) == IF \E e \in m : e[1] = o.u THEN m ELSE m \cup {<<o.u, o.u = o.N>>}
@@ -404,14 +436,15 @@ TrailingUses(h) == IF h = <<>> \/ ~IsUse(h[Len(h)]) THEN 0 ELSE 1 + TrailingUses
 LastIsUse == hist # <<>> /\ IsUse(hist[Len(hist)])
 Construct(c) ==
     /\ pc = "idle" /\ hist = <<>>
-    /\ hist' = << <<"cfg", c[1], c[2], c[3]>> >> /\ want' = AsRec(c) /\ obj' = AsRec(c) /\ memo' = {} /\ prev' = NoPrev
+    /\ ValidCall(c[1], c[2], c[3])
+    /\ hist' = << <<"cfg", c[1], c[2], c[3]>> >> /\ want' = AsRec(Eff(c)) /\ obj' = AsRec(Eff(c)) /\ memo' = {} /\ prev' = NoPrev
     /\ UNCHANGED pc /\ UNCHANGED Pipeline /\ UNCHANGED rxe
 SetParameters(c) ==
     /\ pc = "idle" /\ LastIsUse /\ CfgCalls(hist) < HistMax
     /\ hist' = Append(hist, <<"cfg", c[1], c[2], c[3]>>)
     /\ memo' = Used(obj, memo)
-    /\ IF Valid(c[1], c[2], c[3])
-         THEN want' = AsRec(c) /\ obj' = AsRec(c)
+    /\ IF ValidCall(c[1], c[2], c[3])
+         THEN want' = AsRec(Eff(c)) /\ obj' = AsRec(Eff(c))
          ELSE /\ want' = want                                     \* raises ValueError: nothing may change
               /\ obj' = IF Dev.RejectedSetHalfUpdates /\ c[2] \in 0..c[1]
                           THEN [obj EXCEPT !.N = c[1], !.cp = c[2]] ELSE obj
@@ -445,8 +478,8 @@ ScaleCase(k) ==
     /\ UNCHANGED live /\ UNCHANGED psq /\ UNCHANGED rxe
 ScaleStar == pc = "idle" /\ hist = <<>> /\ \E k \in ScaleCases : ScaleCase(k)
 MapStar  == pc = "idle" /\ hist = <<>> /\ \E N \in MapFfts : \E h \in 1..(N \div 2) : MapCase(N, 2 * h)
-ParamStar == pc = "idle" /\ hist = <<>> /\ \E N \in ParamFfts : \E cp \in -1..(N + 1) : \E u \in 0..(N + 2) : ParamCase(N, cp, u)
-Transmit == pc = "cp" /\ \E ch \in Channels(<<cfg.N, cfg.cp, cfg.u>>, KeyOf(<<cfg.N, cfg.cp, cfg.u>>, 0)) : Channel(ch)
+ParamStar == pc = "idle" /\ hist = <<>> /\ \E N \in ParamFfts : \E cp \in -1..(N + 1) : \E u \in -1..(N + 2) : ParamCase(N, cp, u)
+Transmit == pc = "cp" /\ ns > 0 /\ \E ch \in Channels(<<cfg.N, cfg.cp, cfg.u>>, KeyOf(<<cfg.N, cfg.cp, cfg.u>>, 0)) : Channel(ch)
 Next == ScaleStar \/ NewObject \/ Reconfigure \/ UseLive \/ StartLive \/ Start \/ MapStar \/ ParamStar \/ Pad \/ Map \/ Ifft \/ AddCP \/ Loop \/ Transmit
         \/ Crop \/ RemoveCP \/ Fft \/ Unmap \/ Equalize
 
@@ -479,8 +512,11 @@ ObjectCoherent == hist # <<>> => /\ obj = want
 RejectedChangesNothing == ObjectCoherent
 
 \* every valid configuration has a well-formed index map and a positive power scale
-ParamLaw == pc = "param" /\ Valid(N0, CP, U) => /\ MapLaws(N0, U, UsedIdx(N0, U))
-                                               /\ PowerScale(N0, CP, U)[2] > 0 /\ NSym(1, U) = 1
+ParamLaw == pc = "param" /\ ValidCall(N0, CP, U) =>
+                LET u == EffU(N0, U) IN /\ MapLaws(N0, u, UsedIdx(N0, u))
+                                        /\ PowerScale(N0, CP, u)[2] > 0 /\ NSym(1, u) = 1
+\* the channel object the route builds has exactly the layout's delays (memory = last discretised delay <= cp)
+DiscLaw == pc = "chan" => DiscOk(chan) /\ (~Dev.MemoryExceedsCp => Memory(chan.taps) <= CP)
 
 \* the power scale does not depend on the integer type the parameters were passed as
 ScaleLaw == /\ pc = "ifft" => psq = N0 * N0
@@ -561,7 +597,7 @@ OneTapExact == pc = "eq" =>
 StepOut ==
     CASE pc = "input"   -> [data |-> data]
       [] pc = "mapcase" -> [idx |-> UsedIdx(N0, U)]
-      [] pc = "param"   -> [valid |-> Valid(N0, CP, U)]
+      [] pc = "param"   -> [valid |-> ValidCall(N0, CP, U)]
       [] pc = "scalecase" -> [idx |-> UsedIdx(N0, U), ns |-> 1, padded |-> [j \in 1..U |-> IF j = 1 THEN <<1, 0>> ELSE GZ]]
       [] pc = "pad"     -> [padded |-> padded, ns |-> ns]
       [] pc = "map"     -> [grid |-> grid, gridi |-> gridi, idx |-> UsedIdx(N0, U)]
@@ -582,7 +618,7 @@ StepOut ==
       [] pc = "idle"    -> [call |-> hist[Len(hist)],
                             pt |-> IF LastIsUse THEN "int"
                                    ELSE CallPType(Len(hist), <<hist[Len(hist)][2], hist[Len(hist)][3], hist[Len(hist)][4]>>),
-                            accepted |-> LastIsUse \/ Valid(hist[Len(hist)][2], hist[Len(hist)][3], hist[Len(hist)][4]),
+                            accepted |-> LastIsUse \/ ValidCall(hist[Len(hist)][2], hist[Len(hist)][3], hist[Len(hist)][4]),
                             want |-> <<want.N, want.cp, want.u>>]
       [] OTHER          -> [none |-> 0]
 \* the frame laws the replay must enforce on the public call that ends with this step
